@@ -1,4 +1,4 @@
-import Prom.Lemmas.C06Aux
+import Prom.Lemmas.RegistryHist
 
 namespace Prom.C06
 open Prom
@@ -43,6 +43,24 @@ theorem register_ok_sound (r : Reg) (c : Coll) (h : (r.register c).2 = .ok ()) :
     refine ⟨h1, ?_⟩
     have := h3 List.nodup_nil
     simpa [h2] using this
+
+/-- **register_ok_complete** — the converse: a collector all of whose descriptors pass the three
+    checks (id not in use, recorded dimension hash of the name agrees, no common-label clash), whose
+    descriptors are pairwise distinct and agree among themselves on the dimension hash of a shared
+    name, and whose collector id is free, IS admitted — registration refuses nothing else. -/
+theorem register_ok_complete (r : Reg) (c : Coll)
+    (hok : ∀ d ∈ c.descs, DescOk r d) (hnd : (c.descs.map (·.id)).Nodup) (hself : SelfConsistent c.descs)
+    (hfree : r.collectors.any (·.1 == (c.descs.map (·.id)).foldl (· + ·) (0 : UInt64)) = false) :
+    (r.register c).2 = .ok () := by
+  obtain ⟨res, hres⟩ := regLoop_complete r c.descs [] [] 0 hok (by simpa using hnd)
+    (by intro d _ h hl; simp [dimLookup] at hl) hself
+  obtain ⟨ids, nd, cid⟩ := res
+  obtain ⟨_, _, _, hcid⟩ := regLoop_ok r _ _ _ _ _ _ _ hres
+  unfold Reg.register
+  rw [hres]
+  simp only []
+  rw [hcid, hfree]
+  simp
 
 /-- re-registering a registered single-descriptor collector (or any collector whose descriptor id
     is in use) fails with `AlreadyReg` -/
